@@ -294,6 +294,7 @@ def check_bph_branches(chk) -> None:
     repo = chk.repo
     fi = repo.func(AN, "find_pairs")
     chk.note_function(fi)
+    fi = c03e.unfolded(repo, fi)
     fm = FlowMap(fi.node)
     loop = c03.kd_loop(chk, fi)
     chk.robust |= {"bph-branch", "bph-record", "result-order"}
@@ -474,6 +475,9 @@ def run(chk) -> None:
 
     fs = chk.repo.func(AN, "find_stackings")
     chk.note_function(fs)
+    from checks import c03e as _c03e
+
+    fs = _c03e.unfolded(chk.repo, fs)
     if not any(isinstance(l, ast.For) and isinstance(l.iter, ast.Call) and astq.callee_name(l.iter) == "query_pairs" for l in fs.node.body):
         from checks import c03e as _c03e
 
